@@ -567,6 +567,27 @@ func init() {
 			}
 			return true
 		})
+		// validateWriteRequest: the validators applied to every delete key, in order
+		vw := findFunc(fc, "WriteCommand", "validateWriteRequest")
+		if vw == nil {
+			return Result{}, fmt.Errorf("commands/write.go: validateWriteRequest not found")
+		}
+		var delValidators []string
+		ast.Inspect(vw.Body, func(n ast.Node) bool {
+			rs, ok := n.(*ast.RangeStmt)
+			if !ok || src(fsc, rs.X) != "deletes" {
+				return true
+			}
+			ast.Inspect(rs.Body, func(m ast.Node) bool {
+				if c, ok := m.(*ast.CallExpr); ok {
+					if f := src(fsc, c.Fun); strings.HasPrefix(f, "tupleUtils.IsValid") {
+						delValidators = append(delValidators, strings.TrimPrefix(f, "tupleUtils."))
+					}
+				}
+				return true
+			})
+			return false
+		})
 		// the options handed to the datastore
 		passesOpts := strings.Contains(src(fsc, ex.Body), "storage.WithOnMissingDelete(onEmptyDelete)") &&
 			strings.Contains(src(fsc, ex.Body), "storage.WithOnDuplicateInsert(onDuplicateInsert)")
@@ -653,6 +674,8 @@ func init() {
 		sb.WriteString("def onMissingDefaultIsError : Bool := " + b(missDefErr) + "\n")
 		sb.WriteString("def cmdExecuteOrder : List String := " + leanStrList(execOrder) + "\n")
 		sb.WriteString("def cmdPassesOptions : Bool := " + b(passesOpts) + "\n")
+		sb.WriteString("/-- validators applied to each delete key by validateWriteRequest -/\n")
+		sb.WriteString("def cmdDeleteValidators : List String := " + leanStrList(delValidators) + "\n")
 		sb.WriteString("\n/-- storage.go -/\n")
 		sb.WriteString("def onMissingDeleteError : Nat := " + consts["OnMissingDeleteError"] + "\n")
 		sb.WriteString("def onMissingDeleteIgnore : Nat := " + consts["OnMissingDeleteIgnore"] + "\n")
